@@ -2,8 +2,9 @@
 Proof: AdfProps/C20.lean (string side: every path output_name produces is <extract_dir>/ + a relative part that never
 leaves its start directory, for all byte strings).  Tie: output_name of the real examples/unadf.c (linked into the
 harness) vs the Lean model on enumerated + random (dir, path, name) triples.  Oracle on the real code: the real unadf
-binary, built from the current tree, run on images with hostile names (independent image writer) inside a sandbox
-tree with sentinel files; nothing outside the extraction directory may be created or changed."""
+binary, built from the current tree, run on images with hostile names (independent image writer; relative escapes and
+absolute multi-component paths pointing into the sandbox) inside a short-path sandbox tree with sentinel files, with -d,
+without -d and for single-path extraction; nothing outside the extraction directory may be created or changed."""
 import os, itertools, shutil, subprocess, hashlib, json
 import vlib, imgwriter as iw
 PID = "C20"
